@@ -152,7 +152,73 @@ def histories(chk):
         hr._quoting = False
 
 
+def module_state_frame(chk):
+    """Frame condition on the whole module: a call of hy.repr - successful, failed or nested - leaves every module-level variable of
+    hy.core.hy_repr as it found it (same object, and for containers the same contents).  State that survives a call is exactly what
+    lets an earlier call influence a later one."""
+    import copy
+
+    def snap():
+        out = {}
+        for k, v in vars(hr).items():
+            if k.startswith("__") or isinstance(v, type(hr)) or callable(v):
+                continue
+            try:
+                out[k] = (id(v), copy.copy(v) if isinstance(v, (dict, set, list)) else v)
+            except Exception:  # noqa: BLE001
+                out[k] = (id(v), None)
+        return out
+
+    class Fresh1:
+        pass
+
+    class Fresh2:
+        def __repr__(self):
+            raise ZeroDivisionError("no repr")
+
+    class Fresh3(hm.Object):
+        pass
+    values = [Fresh1(), [Fresh1(), 1], hm.List([hm.Symbol("a")]), hm.Keyword("k"), Fresh2(), [1, [Fresh2()]], hm.List([Fresh2()]), Fresh3(),
+              {"k": (Fresh1(),)}, hm.Expression([hm.Symbol("f"), hm.String("s")])]
+    bad = None
+    for v in values:
+        before = snap()
+        try:
+            hy.repr(v)
+        except Exception:  # noqa: BLE001
+            pass
+        after = snap()
+        chk.case(("frame", type(v).__name__))
+        if set(before) != set(after):
+            bad = bad or (type(v).__name__, "module variables " + str(sorted(set(before) ^ set(after))))
+        for k in before:
+            if k in after and (before[k][0] != after[k][0] or before[k][1] != after[k][1]) and bad is None:
+                bad = (type(v).__name__, f"module variable {k} changed")
+    chk.ob("frame/a call of hy.repr leaves every module-level variable of hy.core.hy_repr as it found it", bad is None, "rtc", "bounded",
+           detail=str(bad), replay=None if bad is None else {"confirmed": True, "input": f"hy.repr of a {bad[0]} value", "observed": bad[1]})
+    # register a printer *after* objects of the type were printed (also in failed and nested calls): the next print uses it
+
+    class Late:
+        pass
+    texts = [hy.repr(Late())[:5], None]
+    try:
+        hy.repr([Late(), Fresh2()])
+    except Exception:  # noqa: BLE001
+        pass
+    hr.hy_repr_register(Late, lambda x: "(Late)", "...")
+    try:
+        texts[1] = hy.repr(Late())
+        nested = hy.repr([Late()])
+    finally:
+        hr._registry.pop(Late, None)
+    chk.ob("history/a printer registered after objects of the type were printed is used by every later call", texts[1] == "(Late)" and nested == "[(Late)]",
+           "rtc", "bounded", detail=f"{texts}, {nested if texts[1] else None}",
+           replay=None if texts[1] == "(Late)" else {"confirmed": True, "input": "hy.repr of an object, then hy.repr-register for its type, then hy.repr again",
+                                                     "observed": repr(texts[1]), "expected": "'(Late)'"})
+
+
 def run(chk):
+    module_state_frame(chk)
     targets.c28(chk, concrete=_concrete)
     rely_scan(chk)
     histories(chk)
